@@ -477,7 +477,7 @@ def session_check(ctx):
 MIXED = {
     # property: (generator, profile, config knobs)
     "C23": ("routing", dict(versions=[5, 4, 3], shared=0.1, nolocal=0.1, props=0.3, subid=0.3, qos=[0, 1, 2], retain=0.3, sys_topics=0.1, bad_filters=0.15,
-                            acl=3, wills=0.4, mps=[0, 0, 40, 60], rpi=[-1, 0, 1], pad=0.3, p_clean=0.4, ack=True,
+                            acl=3, wills=0.4, mps=[0, 0, 40, 60], rpi=[-1, 0, 1], pad=0.3, p_clean=0.4, ack=True, p_ack=0.6, sei=[300, 300, 0],
                             weights=dict(subscribe=5, unsubscribe=2, publish=9, disconnect=2, connect=4, tick=1)), dict(obscure=[False, True])),
     "C24": ("routing", dict(versions=[5, 5, 4], tam=[0, 1, 2, 2], rm=[0, 0, 1], mps=[0, 0, 0, 50], pad=0.2, pads=[60], qos=[0, 1, 1], in_alias=0.5, alias_max=2,
                             filters=[["a"], ["b"], ["a", "b"], ["#"], ["+"]], topics=[["a"], ["b"], ["a", "b"]], p_clean=0.3, sei=[300],
@@ -487,7 +487,7 @@ MIXED = {
                             filters=[["a"], ["b"], ["#"], ["a", "#"]], topics=[["a"], ["b"], ["a", "b"]],
                             weights=dict(subscribe=6, unsubscribe=1, publish=9, disconnect=2, connect=3, tick=7)), dict(max_msg_expiry=[86400, 100, 0, 40])),
     "C34": ("routing", dict(versions=[5, 5, 4], qos=[0, 1, 1, 2], retain=0.5, topics=gen.TOPICS[:6], mps=[0, 0, 40, 60], pad=0.4, pads=[30, 80, 300], rm=[0, 0, 2], sei=[300], p_clean=0.5,
-                            weights=dict(subscribe=5, unsubscribe=1, publish=14, disconnect=1, connect=2)),
+                            weights=dict(subscribe=5, unsubscribe=1, publish=14, disconnect=1, connect=2, stall_burst=2)),
             dict(write_buf=[16, 32, 64, 2048], max_pending=[1, 2, 3, 8192], max_inflight=[8192, 8192, 2])),
     "C38": ("routing", dict(versions=[5, 5, 4], shared=0.15, qos=[0, 1, 2], retain=0.4, empty_payload=0.3, rm=[0, 0, 1, 2], sei=[-1, 0, 30, 300], p_clean=0.4, ack=False,
                             ticks=["clients", "retained", "inflight"], dts=[0, 50, 400],
